@@ -49,7 +49,7 @@ def structured_states(kind, rng):
     out.append([0xAAAAAAAAAAAAAAAA & M] * n)
     out.append([0x5555555555555555 & M, 0xAAAAAAAAAAAAAAAA & M] * (n // 2))
     out.append([1 << (w - 1)] * n)
-    for k in list(range(1, w + 1, max(1, w // 16))) + [w - 1, w]:
+    for k in range(1, w + 1):
         # s0 = 2^k - 1 and every other word 1: a carry chain of length k in s0 + s_j
         out.append([(1 << k) - 1 & M] + [1] * (n - 1))
         out.append([1] * (n - 1) + [(1 << k) - 1 & M])
@@ -60,6 +60,26 @@ def structured_states(kind, rng):
     for k in range(0, w, max(1, w // 8)):
         out.append([(0xFF << k) & M] * n)
         out.append([M ^ (1 << k)] + [M] * (n - 1))
+    # multiplier / shift boundaries of the * and ** scramblers in the word they read (s1, or s0 for the
+    # xoroshiro types): x*5, x*9, x*0x9E3779BB overflow at 2^k/m; values just below, at and above them
+    rd = min(1, n - 1)
+    for k in range(3, w + 1):
+        for m in (5, 9, 45, 5760, 0x9E3779BB):
+            b = (1 << k) // m
+            for v in (b - 1, b, b + 1):
+                if 0 < v <= M:
+                    st = [1] * n
+                    st[rd] = v
+                    out.append(st)
+                    if rd != 0:
+                        st2 = [1] * n
+                        st2[0] = v
+                        out.append(st2)
+        for v in ((1 << k) & M, ((1 << k) + 1) & M):
+            if v:
+                st = [1] * n
+                st[rd] = v
+                out.append(st)
     for _ in range(8):
         out.append([rng.getrandbits(w) | (1 << (w - 1)) for _ in range(n)])
     return [s for s in out if any(s)]
@@ -67,7 +87,7 @@ def structured_states(kind, rng):
 
 def c01_corpus(seed, tier):
     rng = random.Random(seed * 1000003 + 1)
-    R, K = (12, 48) if tier == "quick" else (200, 600)
+    R, K = (16, 96) if tier == "quick" else (300, 800)
     S = Sched()
     for kind in XO:
         wb = WORDBYTES[kind]
@@ -82,11 +102,13 @@ def c01_corpus(seed, tier):
                 ops.append({"op": nat, "g": 1, "n": 2})
             S.case("%s basis %d" % (kind, lo), ops)
         # (2) scrambler classes
-        ops = []
-        for st in structured_states(kind, rng):
-            ops.append({"op": "from_seed", "g": 1, "kind": kind, "seed": words_to_seed(st, wb)})
-            ops.append({"op": nat, "g": 1, "n": 3})
-        S.case("%s structured" % kind, ops)
+        sts = structured_states(kind, rng)
+        for lo in range(0, len(sts), 120):
+            ops = []
+            for st in sts[lo:lo + 120]:
+                ops.append({"op": "from_seed", "g": 1, "kind": kind, "seed": words_to_seed(st, wb)})
+                ops.append({"op": nat, "g": 1, "n": 2})
+            S.case("%s structured %d" % (kind, lo), ops)
         # (3) random seeds x K consecutive native calls, in chunks so that the state image is seen often
         for r in range(R):
             sd = [rng.getrandbits(8) for _ in range(SEEDLEN[kind])]
